@@ -416,6 +416,16 @@ def r14(ctx, prog):
                     return False
             return True
 
+        scanners = {}
+        for c in dec.calls():
+            sent = {q.return_const(g, r) for g in prog.by_usr.get(c.get('usr'), ()) if not g.parent_usr for r in q.returns(g)
+                    if q.return_const(g, r) is not None and q.return_const(g, r) < 0}
+            if sent:
+                for st in dec.stmts:
+                    if st and st['k'] == 'DeclStmt':
+                        for d in st['decls']:
+                            if 'init' in d and c['i'] in set(dec.walk(d['init'])):
+                                scanners[d['n']] = (c.get('fn'), sent)
         for st in dec.stmts:
             if not st or st['k'] != 'ReturnStmt' or not st.get('ch'):
                 continue
@@ -440,6 +450,12 @@ def r14(ctx, prog):
                 defs = q.flag_true_defs(dec, cond, k)
                 if defs and all(d['rhs'] is not None and any(dec.stmts[x]['k'] in q.CALL_KINDS and dec.stmts[x].get('fn') == 'CatchThrow' for x in dec.walk(d['rhs'])) for d in defs):
                     reason = ('parse', None)
+                # the error value of a scanner (a callee with a negative constant return) held in a local
+                for l, o, rr in q.edge_rels(dec, cond, k):
+                    if l in scanners:
+                        cv = [dec.stmts[x]['cv'] for x in dec.walk(cond) if dec.stmts[x].get('cv') is not None]
+                        if (0 in cv and o == '<') or (any(v in scanners[l][1] for v in cv) and o == '=='):
+                            reason = ('scanner', scanners[l][0])
                 ds = {dec.stmts[x].get('d') for x in dec.walk(cond) if dec.stmts[x]['k'] == 'DeclRefExpr'}
                 if (ds & set(wl)) and not (r and r[1] in ('!=', '==') and any(x in fields for x in (r[0], r[2]))):
                     lenconds.append((cond, k, ds & set(wl)))
@@ -448,6 +464,10 @@ def r14(ctx, prog):
                 ok = reason[1] in enc_fields
                 ctx.ob('C14.R14', tag, ok, 'refused on a head code other than %s, which the encoder writes' % reason[1] if ok else
                        'the decoder refuses frames whose head differs from %s, but the encoder does not write that member' % reason[1], where=dec.loc(st['i']))
+                continue
+            if reason and reason[0] == 'scanner':
+                ctx.ob('C14.R14', tag, True, 'refused on the error value of %s(): a closing bracket without its opener outside a string, which Json::dump() never writes '
+                       '(the scan itself is C14.R8)' % reason[1], where=dec.loc(st['i']))
                 continue
             if reason:
                 ctx.ob('C14.R14', tag, True, 'refused on text that does not parse (the encoder writes Json::dump())', where=dec.loc(st['i']))
@@ -500,6 +520,58 @@ def r14(ctx, prog):
         raise AnalysisBroken('expected >= 4 refusing returns in the three decoders, saw %d' % n)
 
 
+def r15(ctx, prog):
+    ctx.rule('C14.R15', 'A9d no error turned into "need more data": where a decoder takes a length from a scanner that reports malformed input by a negative constant '
+             '(util::json::FindEndPos: -1 on unbalanced brackets), every `return 0` (wait for more bytes) that the call can reach lies behind a guard excluding the '
+             'negative result — bytes that can never become a message are refused, not waited on for ever', floor=1)
+    n = 0
+    for P in PROTOS:
+        dec = prog.fn1(NS + P + '::onRecvData')
+        for c in dec.calls():
+            sent = set()
+            for g in prog.by_usr.get(c.get('usr'), ()):
+                if g.parent_usr:
+                    continue
+                for r in q.returns(g):
+                    v = q.return_const(g, r)
+                    if v is not None and v < 0:
+                        sent.add(v)
+            if not sent:
+                continue
+            holder = None
+            for st in dec.stmts:
+                if st and st['k'] == 'DeclStmt':
+                    for d in st['decls']:
+                        if 'init' in d and c['i'] in set(dec.walk(d['init'])):
+                            holder = d['n']
+            if holder is None:
+                continue
+            n += 1
+            cp = q.pt(dec, c)
+            bad = []
+            for r in q.returns(dec):
+                if q.return_const(dec, r) != 0:
+                    continue
+                rp = q.pt_or_term(dec, r)
+                if not dec.cfg.exists_path(cp, rp):
+                    continue
+                ok = False
+                for cond, k, b in q.guards_incl_flags(dec, rp):
+                    for l, o, rr in q.edge_rels(dec, cond, k):
+                        if l != holder:
+                            continue
+                        cv = [dec.stmts[x]['cv'] for x in dec.walk(cond) if dec.stmts[x].get('cv') is not None]
+                        if (0 in cv and o in ('>=', '>', '==')) or (any(v in sent for v in cv) and o in ('!=', '>')):
+                            ok = True
+                if not ok:
+                    bad.append(r)
+            ctx.ob('C14.R15', '%s::onRecvData|%s' % (P, c.get('fn')), not bad, 'the scanner\'s error value never reaches `return 0`' if not bad else
+                   '%s() returns %s for input that can never become a message (unbalanced brackets), and onRecvData answers 0 — "need more data" — at %s without excluding it: '
+                   'the malformed bytes are never reported, the caller keeps them and waits for ever' % (c.get('fn'), sorted(sent), dec.loc(bad[0]['i'])), where=dec.loc(c['i']))
+    if n < 1:
+        raise AnalysisBroken('no scanner with a negative error value found in the decoders (FindEndPos body not in the program?)')
+
+
 def run(ctx):
     prog = extract('ALL' if ctx.tier == 'thorough' else scope_units())
     ctx.guard(r1, ctx, prog)
@@ -513,6 +585,7 @@ def run(ctx):
     ctx.guard(tmon.run_users, ctx, prog, 'C14.R12', RPC)
     ctx.guard(r13, ctx, prog)
     ctx.guard(r14, ctx, prog)
+    ctx.guard(r15, ctx, prog)
     ctx.guard(harden.run_json_narrowing, ctx, prog, 'C14.R11', [prog.fn1(NS + 'Proto::onRecvJson')] + [prog.fn1(RPC + '::' + n) for n in ('onRecvRequest', 'onRecvRespond')],
               lambda g: g.file.startswith(MODULES + '/jsonrpc/') or g.file.startswith(MODULES + '/util/'), 'JSON-RPC receive path')
     ctx.guard(harden.run, ctx, prog, 'C14.R10', [prog.fn1(NS + p + '::onRecvData') for p in PROTOS] + [prog.fn1(NS + 'Proto::onRecvJson')] +
